@@ -46,6 +46,7 @@ class G:
         self.saved = (0, [], None)
         self.waiting_recv = None  # channels this goroutine is parked on as a receiver
         self.waiting_send = None  # [(chan, value, [taken])] while parked as a sender
+        self.handoff = None  # (chan, value) handed directly to this parked receiver by a sender
 
 
 class Coop:
@@ -405,6 +406,16 @@ def install(I, preemptions=1, ds_sync=True, max_sync=4000):
     def do_send(I, ch, v, ins):
         if ch.closed:
             raise GoPanic('send-on-closed', None, (ins or {}).get('pos', ''))
+        if ch.cap == 0 and not ch.buf:
+            # unbuffered: the value goes directly to a parked receiver, which is thereby COMMITTED to this case of its
+            # select (as in the Go run time: the receiver is dequeued with the case chosen)
+            c = co(I)
+            ws = recv_waiters(c, ch)
+            if ws:
+                w = ws[0]
+                w.handoff = (ch, v)
+                w.waiting_recv = None
+                return
         ch.buf.append(v)
 
     def do_recv(I, c, ch, ins):
@@ -457,11 +468,17 @@ def install(I, preemptions=1, ds_sync=True, max_sync=4000):
             g.waiting_recv = [ch for (d, ch, sv) in states if d == 2 and ch is not None]
             sends = [(ch, sv, [False]) for (d, ch, sv) in states if d == 1 and ch is not None]
             g.waiting_send = sends
+            g.handoff = None
             try:
-                c.sync(lambda: bool(ready()) or any(x[2][0] for x in sends), label + '-parked', ins)
+                c.sync(lambda: g.handoff is not None or bool(ready()) or any(x[2][0] for x in sends), label + '-parked', ins)
             finally:
                 g.waiting_recv = None
                 g.waiting_send = None
+            if g.handoff is not None:
+                hch, hv = g.handoff
+                g.handoff = None
+                idx = [i for i, (d, ch, sv) in enumerate(states) if d == 2 and ch is hch][0]
+                return (idx, hv, True)
             for k, x in enumerate(sends):
                 if x[2][0]:
                     # a receiver took the value while this goroutine was parked
